@@ -7,6 +7,7 @@ CONSTANTS
   MaxAls = 1
   EditVals = {}
   PairAll = FALSE
+  WithPerturb = FALSE
   WithPinv = TRUE
 INVARIANT HistoryIndependent
 INVARIANT AfterSetTargetInSync
